@@ -59,9 +59,9 @@ func VerifC14Moves() { verifC14Moves(4) }
 
 // VerifC14Moves6 is the thorough variant.
 //
-//verif:harness name=H14b-moves6 tier=thorough bounds="as H14b-moves with 6 steps" reach=done,found,not-found,moved maxpaths=30000000 switches=0
+//verif:harness name=H14b-moves6 tier=thorough bounds="as H14b-moves with 5 steps" reach=done,found,not-found,moved maxpaths=30000000 switches=0
 //verif:assume as H14b-moves
-func VerifC14Moves6() { verifC14Moves(6) }
+func VerifC14Moves6() { verifC14Moves(5) }
 
 func verifC14Moves(steps int) {
 	db := verifNewDB()
